@@ -250,6 +250,24 @@ func runSeq(r *h.Run, label string, seq []packet.Generic, credsConfigured bool, 
 		if len(got) == 0 || got[0] != expect[0] {
 			fail("connack-missing", fmt.Sprintf("accepted CONNECT was not answered by CONNACK first: %v", got))
 		}
+		// PINGRESP is written by the processor itself before it reads the next
+		// packet, and closing flushes what was written: every PINGREQ in front of
+		// the closing packet is answered
+		pr := ref.Canon(&packet.Pingresp{})
+		wantPing, gotPing := 0, 0
+		for _, x := range expect {
+			if x == pr {
+				wantPing++
+			}
+		}
+		for _, x := range got {
+			if x == pr {
+				gotPing++
+			}
+		}
+		if gotPing < wantPing {
+			fail("pingresp-missing-before-close", fmt.Sprintf("%d PINGREQ(s) preceded the closing packet, %d PINGRESP(s) arrived (received %v)", wantPing, gotPing, got))
+		}
 	default:
 		if extra, missing := minus(got, expect), minus(expect, got); len(extra) > 0 || len(missing) > 0 {
 			key := "response-mismatch"
@@ -287,7 +305,7 @@ func minus(a, b []string) []string {
 func TestCheck(t *testing.T) {
 	r := h.New("C20", "exploration")
 	r.Rule("all packet-kind sequences of length 1..3 over the 14 packet types (first, second, third packet) x {no credentials configured, valid, wrong password, unknown user} written in one burst, garbage and truncated first frames, and PRNG pipelines of up to 40 packets with small, repeating packet ids and 1-8 filters per SUBSCRIBE; oracle: zero bytes and zero backend hooks before an accepted CONNECT, exactly CONNACK(5) and only Authenticate after a failed authentication, closing packets close, response multiset = request multiset behind a final SUBSCRIBE fence through the ack queue, at most one CONNACK and first. Non-trivial = sequences whose first packet is not CONNECT, or accepted CONNECT followed by >= 1 packet; distinct by sequence content")
-	r.Assume("responses to requests that precede a connection-closing packet in the same burst may be lost with the connection (only unsolicited packets are judged there)")
+	r.Assume("acknowledgements that travel through the broker's ack queue (SUBACK, UNSUBACK, PUBACK, PUBCOMP) for requests that precede a connection-closing packet in the same burst may be lost with the connection; CONNACK and PINGRESP, which the processor writes itself, must still arrive; nothing unsolicited may appear")
 	r.Exhaustive()
 	types := packet.Types()
 	type job struct {
